@@ -79,7 +79,8 @@ QLt(a,b)  == a.n * b.d < b.n * a.d               \* both "q"
 QCmp0(a)  == IF a.n > 0 THEN 1 ELSE IF a.n < 0 THEN -1 ELSE 0
 
 RECURSIVE QPow(_,_)
-QPow(a,k) == IF k = 0 THEN Q1 ELSE IF k = 1 THEN a
+QPow(a,k) == IF k < 0 THEN Oor                      \* (never a legal parameter; guards the recursion against mangled data)
+             ELSE IF k = 0 THEN Q1 ELSE IF k = 1 THEN a
              ELSE IF ~IsQ(a) THEN Bad1(a)
              ELSE LET h == QPow(a, k \div 2) hh == QMul(h,h) IN
                   IF k % 2 = 0 THEN hh ELSE QMul(hh, a)
